@@ -1,9 +1,78 @@
 import UvModel.DriverUtil
-/-! line-protocol driver modes for C07 (stub: no modes yet) -/
+import UvModel.Accept
+/-! line-protocol driver modes for C07; the other side is harness/c07_unit.c (mode `accept`),
+harness/c07_sim.c (modes `accept`, `connect`, `wcheck`) -/
 namespace Drivers.C07
-open UvModel.DriverUtil
+open UvModel UvModel.DriverUtil UvModel.Accept
 
-/-- (mode name, action).  `uvdriver <mode>` runs the action (normally `runLines init step`). -/
-def modes : List (String × IO Unit) := []
+def kindOf : String → Kind
+  | "t" => .tcp | "p" => .pipe | "u" => .udp | _ => .unknown
+
+/-- `12` or `12:t` -/
+def fd! (w : String) : Fd :=
+  match w.splitOn ":" with
+  | [i, k] => ⟨nat! i, kindOf k⟩
+  | _ => ⟨nat! w, .unknown⟩
+
+def ids (l : List Fd) : String := ",".intercalate (l.map fun f => toString f.id)
+
+def closedAll (s : St) : List Fd := failedOpen s ++ s.byClose ++ s.dropped ++ s.shed
+
+def kindName : Kind → String
+  | .tcp => "t" | .pipe => "p" | .udp => "u" | .unknown => "-"
+
+def showSt (old s : St) (r : Int) : String :=
+  let acc := match s.acceptedFd with | none => "-" | some f => toString f.id
+  let q := match s.queued with
+    | none => "-"
+    | some q => s!"{q.size}/{q.offset}:{ids (q.fds.take q.offset)}"
+  -- descriptors closed by this op: the new tail of each close list (only one list changes per op)
+  let newOf (a b : List Fd) := b.drop a.length
+  let cl := newOf (failedOpen old) (failedOpen s) ++ newOf old.byClose s.byClose ++
+            newOf old.dropped s.dropped ++ newOf old.shed s.shed
+  let b (x : Bool) := if x then "1" else "0"
+  s!"r={r} acc={acc} q={q} pollin={b s.pollin} pc={pendingCount s} spare={b s.spare} cl={ids cl}" ++
+    (if s.fault then " FAULT" else "")
+
+structure AS where
+  s : Option St := none
+  typed : Bool := false      -- also print pendingType (simulator mode)
+
+def out (a : AS) (old s : St) (r : Int) : AS × List String :=
+  ({ a with s := some s }, [showSt old s r ++ (if a.typed then s!" ty={kindName (pendingType s)}" else "")])
+
+def acceptStep (a : AS) (ws : List String) : AS × List String :=
+  match ws with
+  | [] => (a, [])
+  | ["init", r, ipc] =>
+    let role := if r = "L" then Role.listen else Role.ipc
+    let s := init role (ipc = "1") (role == .listen)
+    out a s s 0
+  | ["typed"] => ({ a with typed := true }, [])
+  | _ =>
+    match a.s with
+    | none => (a, ["bad-op"])
+    | some s =>
+      match ws with
+      | ["io", "ok", i] => out a s (ioBegin s (.ok (fd! i)) {}) 0
+      | ["io", "err", e] => out a s (ioBegin s (.err (int! e)) {}) 0
+      | "io" :: "trick" :: e :: fin :: re :: shed =>
+        out a s (ioBegin s (.err (int! e)) { shedFds := shed.map fd!, final := int! fin, reopen := re = "1" }) 0
+      | ["ioend"] => out a s (ioEnd s) 0
+      | ["accept", k, e] =>
+        let c := if k = "U" then ClientTy.udp else if k = "X" then ClientTy.other else ClientTy.stream
+        if k ∈ ["S", "T", "B", "U", "X"] then
+          -- the harness initialises a fresh stream client first (uv__stream_init re-opens the spare fd)
+          let s1 := if k ∈ ["S", "T", "B"] then streamInit s true else s
+          let (s', r) := uvAccept s1 c (int! e)
+          out a s s' r
+        else (a, ["bad-op"])
+      | "recv" :: f :: fds =>
+        let (s', r) := recv s (fds.map fd!) (if f = "-" then none else some (nat! f))
+        out a s s' r
+      | ["close"] => out a s (close s) 0
+      | _ => (a, ["bad-op"])
+
+def modes : List (String × IO Unit) := [("accept", runLines ({} : AS) acceptStep)]
 
 end Drivers.C07
